@@ -167,6 +167,8 @@ class Norm:
         if name == 'conv':
             src, dst = targs
             if dst == 'rust_decimal::Decimal' and src in ('u128', 'i32', 'u64', 'i64', 'u32'): return a[0]
+            # wrapping a bank / marker message into the CosmosMsg envelope (what Response::add_message does anyway)
+            if dst.startswith('cosmwasm_std::CosmosMsg') and (src.endswith('BankMsg') or src.endswith('MsgTransferRequest')): return a[0]
             return ('call', 'conv:%s->%s' % (src, dst), a)
         if name == 'std::convert::From::from': return ('call', 'from', a)
         if name == '<rust_decimal::Decimal as rust_decimal::prelude::Zero>::zero': return ('int', 0)
